@@ -202,6 +202,15 @@ fn same(ptype: PointType, m: &RxMeas, value: f64, bytes: &[u8], flags: u8, time:
     if m.value != value {
         return false;
     }
+    // a packed single- or double-bit variation carries no flag octet because the outstation only uses it for points whose
+    // flags are exactly ONLINE (anything else is promoted to the variation with flags): receiving it says "ONLINE"
+    let packed = !m.has_flags && matches!(m.variation.as_str(), "Group1Var1" | "Group3Var1" | "Group10Var1");
+    if packed {
+        let mask = if ptype == PointType::DoubleBit { 0x3F } else { 0x7F };
+        if (wire_flags(ptype, flags, value) & mask) != 0x01 {
+            return false;
+        }
+    }
     if m.has_flags {
         let mask = match ptype {
             PointType::Binary | PointType::BinaryOutputStatus => 0x7F,
@@ -266,11 +275,15 @@ pub fn analyse(case: &PairCase, run: &PairRun) -> (Option<Violation>, bool, u64,
     // walk the master's log: read tasks give the window of static data, measurements are checked for provenance
     let mut read_started: Option<u64> = None;
     let mut delivered_events: Vec<(u64, RxMeas)> = Vec::new();
+    // position in the master's log of each delivery (several can share a virtual millisecond)
+    let mut delivered_event_pos: Vec<u64> = Vec::new();
+    let mut last_static_pos: BTreeMap<(PointType, u16), u64> = BTreeMap::new();
     let mut last_static: BTreeMap<(PointType, u16), (u64, RxMeas)> = BTreeMap::new();
     let mut connected = false;
     let mut connected_since = 0u64;
     let mut n_static = 0u64;
-    for (t, _, ev) in &run.master_log {
+    for (seq_no, (t, _, ev)) in run.master_log.iter().enumerate() {
+        let seq_no = seq_no as u64;
         match ev {
             MEv::Client(state) => {
                 let now = state == "Connected";
@@ -305,6 +318,7 @@ pub fn analyse(case: &PairCase, run: &PairRun) -> (Option<Violation>, bool, u64,
                         ));
                     }
                     delivered_events.push((*t, m.clone()));
+                    delivered_event_pos.push(seq_no);
                 } else {
                     n_static += 1;
                     // provenance + freshness: a value the point held at some moment between the request and now
@@ -338,6 +352,7 @@ pub fn analyse(case: &PairCase, run: &PairRun) -> (Option<Violation>, bool, u64,
                         ));
                     }
                     last_static.insert(key, (*t, m.clone()));
+                    last_static_pos.insert(key, seq_no);
                 }
             }
             _ => {}
@@ -407,13 +422,20 @@ pub fn analyse(case: &PairCase, run: &PairRun) -> (Option<Violation>, bool, u64,
         if unsol_only {
             for (key, v) in &ledger.mirror {
                 let newest = ledger.events.values().filter(|e| e.ptype == key.0 && e.index == key.1).max_by_key(|e| e.id);
-                if newest.map(|e| e.state == EvState::Discarded).unwrap_or(false) {
+                // ... unless the master is configured to run an integrity poll when the outstation reports the overflow
+                let integrity_on_overflow = case.mcfg.assocs.first().map(|a| a.integrity_on_overflow).unwrap_or(false);
+                if newest.map(|e| e.state == EvState::Discarded).unwrap_or(false) && !integrity_on_overflow {
                     continue;
                 }
-                let last_ev = delivered_events.iter().rev().find(|d| d.1.ptype == key.0 && d.1.index == key.1);
+                let last_ev_i = delivered_events.iter().rposition(|d| d.1.ptype == key.0 && d.1.index == key.1);
+                let last_ev = last_ev_i.map(|i| &delivered_events[i]);
                 let last_st = last_static.get(key);
+                let ev_later = match (last_ev_i, last_static_pos.get(key)) {
+                    (Some(i), Some(p)) => delivered_event_pos[i] > *p,
+                    _ => true,
+                };
                 let last = match (last_ev, last_st) {
-                    (Some(e), Some(s)) => Some(if e.0 >= s.0 { (e.0, &e.1) } else { (s.0, &s.1) }),
+                    (Some(e), Some(s)) => Some(if ev_later { (e.0, &e.1) } else { (s.0, &s.1) }),
                     (Some(e), None) => Some((e.0, &e.1)),
                     (None, Some(s)) => Some((s.0, &s.1)),
                     (None, None) => None,
